@@ -30,8 +30,8 @@ def cert? (s : String) : Option Cert :=
   | ["c", id, nb, na, host, le, pub, priv, m] => do
     -- key relation: 1 = the leaf certifies the private key, 0 = an unrelated key,
     -- m = a near miss (EC: same X, other Y; RSA: one bit of N differs) — not the key;
-    -- e = RSA same modulus, other exponent — `validCert` compares the modulus only, so this counts as a match
-    let km ← if m == "m" then some false else if m == "e" then some true else bool? m
+    -- e = RSA same modulus, other exponent — not the key either (validCert compares modulus and exponent; fixed in ef42413)
+    let km ← if m == "m" || m == "e" then some false else bool? m
     pure ⟨← id.toNat?, ← nb.toInt?, ← na.toInt?, ← bool? host, ← bool? le, ← kt? pub, ← kt? priv, km⟩
   | _ => none
 
